@@ -91,44 +91,47 @@ def probe_state(ad, prefix, state, nevents, lam_seen, stats, case_of):
                       "state %r: code clock rate %r, reference total rate %r"
                       % (state, lam_seen, tot), case_of(prefix)))
         return viol, None
-    ex = Explorer(lambda s: ad.run(s), ad.sig_of, hints=ad.hints(state))
     base = list(prefix) + [("e", getattr(ad, "clock", 1.0))]
-    leaves = ex.explore(base)
-    stats["probe_runs"] = stats.get("probe_runs", 0) + ex.runs
-    stats["bisect_probes"] = stats.get("bisect_probes", 0) + ex.bisect_probes
-    stats["hint_hits"] = stats.get("hint_hits", 0) + ex.hint_hits
-    stats["rejection_loops"] = stats.get("rejection_loops", 0) + ex.loops
-    stats["leaves"] = stats.get("leaves", 0) + len(leaves)
-    code_law = {}
-    by_key = {}
-    for lf in leaves:
-        if lf.kind == "exc":
-            k = ("exc", type(lf.res.exc).__name__)
-            code_law[k] = code_law.get(k, 0.0) + lf.mass
-            by_key.setdefault(k, []).append(lf)
-            continue
-        if lf.kind in ("stuck", "after_end"):
-            k = (lf.kind,)
-            code_law[k] = code_law.get(k, 0.0) + lf.mass
-            by_key.setdefault(k, []).append(lf)
-            continue
-        events, final = ad.decode(lf.res)
-        if len(events) != nevents + 1:
-            k = ("nevents", len(events) - nevents)
-            code_law[k] = code_law.get(k, 0.0) + lf.mass
-            by_key.setdefault(k, []).append(lf)
-            continue
-        ev = events[-1]
-        k = ad.code_key(ev, state)
-        code_law[k] = code_law.get(k, 0.0) + lf.mass
-        by_key.setdefault(k, []).append(lf)
     ref_law = {}
     ref_by_proj = {}
     for rk, r in ref_ev.items():
         pk = ad.project(rk)
         ref_law[pk] = ref_law.get(pk, 0.0) + r / tot
         ref_by_proj.setdefault(pk, []).append(rk)
+
+    def extract(exact):
+        ex = Explorer(lambda s: ad.run(s), ad.sig_of, hints=ad.hints(state), exact=exact,
+                      max_runs=200000 if exact else 20000)
+        leaves = ex.explore(base)
+        stats["probe_runs"] = stats.get("probe_runs", 0) + ex.runs
+        stats["bisect_probes"] = stats.get("bisect_probes", 0) + ex.bisect_probes
+        stats["hint_hits"] = stats.get("hint_hits", 0) + ex.hint_hits
+        stats["rejection_loops"] = stats.get("rejection_loops", 0) + ex.loops
+        stats["leaves"] = stats.get("leaves", 0) + len(leaves)
+        code_law = {}
+        by_key = {}
+        for lf in leaves:
+            if lf.kind == "exc":
+                k = ("exc", type(lf.res.exc).__name__)
+            elif lf.kind in ("stuck", "after_end"):
+                k = (lf.kind,)
+            else:
+                events, final = ad.decode(lf.res)
+                if len(events) != nevents + 1:
+                    k = ("nevents", len(events) - nevents)
+                else:
+                    k = ad.code_key(events[-1], state)
+            code_law[k] = code_law.get(k, 0.0) + lf.mass
+            by_key.setdefault(k, []).append(lf)
+        return code_law, by_key
+
+    code_law, by_key = extract(False)
     bad = compare_laws(code_law, ref_law, LAW_TOL)
+    if bad:
+        # never report on the strength of the cheap region signatures alone
+        stats["exact_reexplorations"] = stats.get("exact_reexplorations", 0) + 1
+        code_law, by_key = extract(True)
+        bad = compare_laws(code_law, ref_law, LAW_TOL)
     dev = 0.0
     for e in set(code_law) | set(ref_law):
         dev = max(dev, abs(code_law.get(e, 0.0) - ref_law.get(e, 0.0)))
